@@ -18,9 +18,11 @@ import (
 	"bytes"
 	"context"
 	"encoding/json"
+	"errors"
 	"flag"
 	"fmt"
 	"io"
+	"io/fs"
 	"math/rand"
 	"os"
 	"os/exec"
@@ -35,6 +37,8 @@ import (
 	"github.com/tetratelabs/wazero"
 	"github.com/tetratelabs/wazero/api"
 	"github.com/tetratelabs/wazero/experimental"
+	experimentalsys "github.com/tetratelabs/wazero/experimental/sys"
+	expsysfs "github.com/tetratelabs/wazero/experimental/sysfs"
 	"github.com/tetratelabs/wazero/internal/wasm"
 	"github.com/tetratelabs/wazero/verifharness/hx"
 	"github.com/tetratelabs/wazero/verifharness/wb"
@@ -72,7 +76,11 @@ type Op struct {
 func (o Op) Token() string {
 	switch o.Kind {
 	case "inst":
-		return fmt.Sprintf("inst,%d,%d,%s", o.H, o.Name, o.Pre)
+		pre := o.Pre
+		if pre == "badfs" {
+			pre = "none" // for the registry model a precompiled instantiation like any other
+		}
+		return fmt.Sprintf("inst,%d,%d,%s", o.H, o.Name, pre)
 	case "look":
 		return fmt.Sprintf("look,%d", o.Name)
 	case "comp":
@@ -190,6 +198,10 @@ func classifyErr(err error) string {
 	}
 	s := err.Error()
 	switch {
+	case errors.Is(err, experimentalsys.EIO):
+		// the close went through; the error reports the failing release of the instance's file system
+		rep.Count("close:reported-resource-release-error")
+		return "ok"
 	case strings.Contains(s, "has already been instantiated"):
 		return "dup"
 	case strings.Contains(s, "runtime closed with exit_code"), strings.Contains(s, "already closed"):
@@ -201,6 +213,17 @@ func classifyErr(err error) string {
 	}
 	return "other:" + strings.ReplaceAll(strings.ReplaceAll(s, " ", "_"), ",", "_")
 }
+
+// badFS: a file system whose (only) directory handle fails to close
+type badFS struct{ experimentalsys.UnimplementedFS }
+
+type badDir struct{ experimentalsys.UnimplementedFile }
+
+func (badFS) OpenFile(string, experimentalsys.Oflag, fs.FileMode) (experimentalsys.File, experimentalsys.Errno) {
+	return badDir{}, 0
+}
+func (badDir) IsDir() (bool, experimentalsys.Errno) { return true, 0 }
+func (badDir) Close() experimentalsys.Errno           { return experimentalsys.EIO }
 
 // raw result of a lookup before pointers are resolved to handles
 type rawRes struct {
@@ -235,6 +258,17 @@ func (w *world) do(o Op) (res rawRes) {
 		switch o.Pre {
 		case "none":
 			m, err = w.rt.InstantiateModule(ictx, w.compiled, wazero.NewModuleConfig().WithName(nameStr(o.Name)))
+		case "badfs":
+			// an instance holding a resource whose release FAILS (a mounted file system whose directory handle returns
+			// an I/O error from Close): closing such an instance reports the error, but must leave the registry as
+			// any other close does
+			m, err = w.rt.InstantiateModule(ictx, w.compiled, wazero.NewModuleConfig().WithName(nameStr(o.Name)).
+				WithFSConfig(wazero.NewFSConfig().(expsysfs.FSConfig).WithSysFSMount(badFS{}, "/")))
+			if err == nil {
+				if f, ok := unwrap(m).Sys.FS().LookupFile(3); ok {
+					f.File.IsDir() // the pre-open is opened lazily: do it now
+				}
+			}
 		case "bin":
 			m, err = w.rt.InstantiateWithConfig(ictx, freshBinary(), wazero.NewModuleConfig().WithName(nameStr(o.Name)))
 		case "host":
@@ -350,6 +384,8 @@ func genSeq(r *rand.Rand, n int) []Op {
 				pre = "host"
 			} else if y >= 6 {
 				pre = "bin"
+			} else if y == 0 {
+				pre = "badfs"
 			}
 			name := r.Intn(4)
 			if pre == "host" && name == 0 {
@@ -599,6 +635,8 @@ func genProg(r *rand.Rand, n int, nextH *int, rtCloseProb int, hot bool) []progO
 				pre = "host"
 			} else if y >= 6 {
 				pre = "bin"
+			} else if y == 0 {
+				pre = "badfs"
 			}
 			name := r.Intn(4)
 			if pre == "host" && name == 0 {
